@@ -71,7 +71,7 @@ def main(tier, args):
                    "Variants: user callbacks that call back in (send-complete sends 2 bytes; receive callback echoes what it took; pauses the descriptor / disconnects the connection; shrinks receive and send buffer after its partial hasRead); bind()/unbind() "
                    "to a recording receiver, shrinkSendBuffer()/shrinkRecvBuffer() as extra operations; initialize(kReadOnly) / initialize(kWriteOnly); descriptor kind: non-blocking socketpair, socketpair handed over blocking, pipe read end, pipe write end. "
                    "Only operations that change the model state are offered. After every history the loop is run to quiescence with the peer draining, then the callback is replaced on the live object (threshold 0, take all) and the peer writes one more byte: "
-                   "all unconsumed bytes must come again with it. Byte-exact std::string reference for both directions; shown/delivered/close clauses are decided by the reference model. "
+                   "all unconsumed bytes must come again with it. Byte-exact std::string reference for both directions; shown/delivered/close clauses are decided by the reference model. A receive or read-zero callback on a BufferedFd the user has disabled, and a receive or disconnected callback after the user's own TcpConnection::disconnect(), are violations (the user closing from inside a callback is one of the points at which either side closes). "
                    "(2) TcpServer+TcpClient lane (real acceptor/connector over a unix-domain socket, depth %d, %d configurations: threshold/policy 0/all; 3/all-but-1 with client 0 auto-reconnecting, client 1 bound to a receiver (also un/re-bound on the live "
                    "connection) and server-stop = cleanup()+initialize(); greeting sent inside both connected callbacks + echo server; each side closing its own end inside its first receive callback (the last two one level shallower)): objects go through several sessions - "
                    "client stop/start, client 1 cleanup()+initialize(), peer-initiated disconnect, auto-reconnect, server stop/start with connections waiting in the listen queue, shutdown(SHUT_WR) from either side, late installation of callbacks inside the "
